@@ -245,7 +245,10 @@ Ghosts(L) ==
 
 Record(r) == hist' = IF GenHist THEN Append(hist, r) ELSE hist
 
-RelayPay(p, rs) ==
+\* pu: the transaction's Creator is written in the other accepted spelling of the sender's bech32 address
+\* (all upper case).  The account is the same, so the spelling has NO effect on any action below (a session's
+\* identity is by account); it only travels to the driver through the history.
+RelayPayU(p, pu, rs) ==
   LET S == Walk(CurS, p, rs, 1, BadgeMap(rs, 1))
       ok == S.status = "ok" /\ S.nrej = 0
       L == MkLast("pay", p, ok, IF ok THEN "" ELSE IF S.status = "hard" THEN "hard" ELSE "soft", rs,
@@ -255,15 +258,16 @@ RelayPay(p, rs) ==
            ELSE UNCHANGED <<unique, pec, pcec, bused, used, mleft, tracked, pcache>>
      /\ last' = L
      /\ Ghosts(L)
-     /\ Record([a |-> "pay", p |-> p, rs |-> rs])
+     /\ Record([a |-> "pay", p |-> p, pu |-> pu, rs |-> rs])
      /\ UNCHANGED <<cur, off, earliest, df>>
+RelayPay(p, rs) == RelayPayU(p, FALSE, rs)
 
 \* badge-usage timers that fire when the chain reaches (c, o)
 BadgeGC(B, c, o) == {r \in B : ~BadgeExpired([e |-> r.k[3], o |-> r.k[4]], c, o)}
 
 Quiet(ev) == /\ last' = MkLast(ev, "", TRUE, "", <<>>, <<>>)
              /\ UNCHANGED <<credOnce, credTwice, sumRew, bcred>>
-             /\ Record([a |-> ev, p |-> "", rs |-> <<>>])
+             /\ Record([a |-> ev, p |-> "", pu |-> FALSE, rs |-> <<>>])
 
 NextEpoch(newdf) ==
   LET c == cur + 1
@@ -386,14 +390,14 @@ GenRelay1(p, sg, e, ss, cu, m) == Mut(Base(p, sg, e, ss, cu), m)
 GenRelay(p) == GenRelay1(p, Pick(GSigners), Pick((cur :> 3) @@ Uniform({x \in {cur - 1, cur - 2} : x >= 0})),
                          Pick(Uniform(Sessions)), Pick(GCUs), Pick(GMuts))
 \* dup = 1: second relay repeats the first, 2: same session re-signed with another CU, 3 (c18, c04): huge CuSum
-GenPay2(p, n, dup, r1, r2, r3, cu2) ==
+GenPay2(p, pu, n, dup, r1, r2, r3, cu2) ==
   LET r2d == IF dup = 1 THEN r1 ELSE IF dup = 2 THEN [r1 EXCEPT !.cu = cu2]
              ELSE IF dup = 3 /\ (Profile = "c04" \/ (r1.b.u # "-" /\ r1.b.u = r1.sg))
                   THEN [r1 EXCEPT !.cu = Wrap, !.ss = (r1.ss % 3) + 1]      \* same signer/badge/epoch, another session, CuSum = 2^64-5
              ELSE r2
       rs == IF n = 1 THEN <<r1>> ELSE IF n = 2 THEN <<r1, r2d>> ELSE <<r1, r2d, r3>>
-  IN RelayPay(p, rs)
-GenPay1(p) == GenPay2(p, Pick(Uniform(1..MaxRelays)), Pick(0 :> 4 @@ 1 :> 2 @@ 2 :> 2 @@ 3 :> (IF Profile \in {"c18", "c04"} THEN 1 ELSE 0)), GenRelay(p), GenRelay(p), GenRelay(p), Pick(GCUs))
+  IN RelayPayU(p, pu, rs)
+GenPay1(p) == GenPay2(p, Pick(FALSE :> 3 @@ TRUE :> 1), Pick(Uniform(1..MaxRelays)), Pick(0 :> 4 @@ 1 :> 2 @@ 2 :> 2 @@ 3 :> (IF Profile \in {"c18", "c04"} THEN 1 ELSE 0)), GenRelay(p), GenRelay(p), GenRelay(p), Pick(GCUs))
 GenPay == GenPay1(Pick(GCreators))
 GenStep(k, d) ==
   \/ k = "pay" /\ GenPay
@@ -410,13 +414,13 @@ GenNext == /\ nops < MaxOps /\ nops' = nops + 1
 \* and one block (so that an expired epoch exists and a non-epoch-start block is not in the future),
 \* then ONE transaction of n relays whose k-th relay carries the single-field mutation m; the other
 \* relays are valid (distinct sessions).
-MatrixPrefix == <<[a |-> "epoch", p |-> "", rs |-> <<>>], [a |-> "epoch", p |-> "", rs |-> <<>>], [a |-> "epoch", p |-> "", rs |-> <<>>],
-                  [a |-> "epoch", p |-> "", rs |-> <<>>], [a |-> "block", p |-> "", rs |-> <<>>]>>
+MatrixPrefix == <<[a |-> "epoch", p |-> "", pu |-> FALSE, rs |-> <<>>], [a |-> "epoch", p |-> "", pu |-> FALSE, rs |-> <<>>], [a |-> "epoch", p |-> "", pu |-> FALSE, rs |-> <<>>],
+                  [a |-> "epoch", p |-> "", pu |-> FALSE, rs |-> <<>>], [a |-> "block", p |-> "", pu |-> FALSE, rs |-> <<>>]>>
 MatrixTx(p, sg, m, n, k) == [i \in 1..n |-> IF i = k THEN MutAt(Base(p, sg, 4, i, 60), m, 4, 1, 1) ELSE Base(p, "c1", 4, i, 10)]
 MatrixInit == /\ InitNoHist
               /\ \E p \in Creators, sg \in Signers, m \in Muts, n \in 1..MaxRelays, k \in 1..MaxRelays :
                     /\ k <= n
-                    /\ hist = Append(MatrixPrefix, [a |-> "pay", p |-> p, rs |-> MatrixTx(p, sg, m, n, k)])
+                    /\ hist = Append(MatrixPrefix, [a |-> "pay", p |-> p, pu |-> FALSE, rs |-> MatrixTx(p, sg, m, n, k)])
 MatrixNext == UNCHANGED vars
 MatrixEmit == PrintT(<<"BEH", ToJson(hist)>>)
 Emit == nops < MaxOps \/ PrintT(<<"BEH", ToJson(hist)>>)
